@@ -161,6 +161,9 @@ def run_nasty(extra=None, tag="nasty"):
                 texts["cyclic-" + k9] = files9["main.oal"]
     except Exception:
         pass
+    # imports as the single-file playground sees them: its own name under other spellings, other files, nothing at all
+    for k9, imp9 in enumerate(("main.oal", "./main.oal", "main.oal#v2", "main.oal?draft", "./main.oal#x", "other.oal", "/main.oal", "file:///main.oal", "file:///main.oal#f", "//main.oal", "", "#", "?", "..", "http://example.org/main.oal")):
+        texts["import-%d" % k9] = 'use "%s" as m;\nres / on get -> <{}>;\n' % imp9
     # short and deep: nothing but one nested expression (few tokens, many levels)
     for d9 in (12, 16, 20, 28):
         texts["short-deep-parens-%d" % d9] = "let a = " + "(" * d9 + "num" + ")" * d9 + ";\n"
@@ -485,6 +488,29 @@ def loader_lemmas(o, L, ML, MW, bad, on_sat):
     """WebLoader::parse's unwrap is unreachable; the other loaders never unwrap the tree."""
     E = mirlib.enums()
     S = L.smt
+    # the playground's loader asserts in load() what is_valid() promised: the two must look at the same thing, or an
+    # import that passes the validity test takes compile() down with an assertion failure
+    try:
+        f_iv = MW.one(r"^<impl at oal-wasm/src/lib\.rs[^>]*>::is_valid$")
+        f_ld = MW.one(r"^<impl at oal-wasm/src/lib\.rs[^>]*>::load$")
+        o.functions += [mirlib.func_ref(f_iv, "oal-wasm"), mirlib.func_ref(f_ld, "oal-wasm")]
+        exv = mirlib.executor([MW])
+        valid_when = []
+        for p in exv.run(f_iv, arg_names=["self", "loc"]):
+            if p.kind == "return":
+                valid_when.append(z3.And(S.pc(p.pc) + [z3.BoolVal(True) if p.ret == ms.TRUE else z3.BoolVal(False) if p.ret == ms.FALSE else S.b(p.ret)]))
+        exl = mirlib.executor([MW])
+        n_pan = 0
+        for p in exl.run(f_ld, arg_names=["self", "loc"]):
+            if p.kind == "diverge" and (p.info or {}).get("panic"):
+                n_pan += 1
+                L.expect_unsat("WebLoader: load() cannot fail its assertion on a locator that is_valid() accepted", [z3.Or(valid_when)] + S.pc(p.pc), on_sat)
+        mirlib.check_translator(o, exv, "WebLoader::is_valid")
+        mirlib.check_translator(o, exl, "WebLoader::load")
+        if not valid_when:
+            o.inconc("WebLoader::is_valid: no returning path")
+    except KeyError as e:
+        o.inconc("WebLoader: %s" % str(e)[:120])
     specs = [(MW, "oal-wasm", r"^<impl at oal-wasm/src/lib\.rs[^>]*>::parse$", "WebLoader::parse"),
              (ML, "oal-client", r"cli::<impl at oal-client/src/cli/mod\.rs[^>]*>::parse$", "ProcLoader::parse"),
              (ML, "oal-client", r"lsp::<impl at oal-client/src/lsp/mod\.rs[^>]*>::parse$", "WorkspaceLoader::parse")]
